@@ -8,7 +8,7 @@ SPEC = Spec(
                 files={"zz_verif_c09_graph_test.go": "c09/graph_test.go"},
                 test="TestVerifC09Graph", driver="drv_c09", n={"quick": 2500, "thorough": 40000}, timeout_s=1500),
     ],
-    rule="corpus of 10 hand-made topologies first, then random service configurations (1-6 pipelines over 1-4 signals, "
+    rule="corpus of 15 hand-made topologies first (cases 0-14, harness/c09/graph_test.go vCorpus), then random service configurations (1-6 pipelines over 1-4 signals, "
          "0-3 receivers/exporters/processors per pipeline from 4 ids, 0-3 connectors with random support matrices, 60% built "
          "acyclic-by-construction, 40% unconstrained incl. self/one-sided/unsupported uses, duplicated list entries, a connector "
          "id that also names a receiver) run through the real graph.Build with instrumented components of all four signals; "
